@@ -274,12 +274,27 @@ def run(res, ctx):
         except Exception as e:   # the generators belong to another group: their absence must not hide C05's own findings
             docs = []
             st["structured-docs-unavailable"] += 1
-        for k in range(120 if tier == "quick" else 1500):
+        # every single-line deletion of one document per kind and of every ESO document (a row of one
+        # grant lost by the text extraction), then random damage
+        singles = []
+        seen_kind = set()
+        for kind, text in docs:
+            if kind == "eso" or kind not in seen_kind:
+                seen_kind.add(kind)
+                ls = text.split("\n")
+                singles += [(kind, "\n".join(ls[:i] + ls[i + 1:])) for i in range(len(ls)) if ls[i].strip()]
+        if tier == "quick" and len(singles) > 260:
+            singles = rng.sample(singles, 260)
+        for k in range(len(singles) + (120 if tier == "quick" else 1500)):
             if not docs or not os.path.exists(os.path.join(bindir, "etrade-plan-pdf-tx-extract")):
                 break
-            kind, text = rng.choice(docs)
-            lines = text.split("\n")
-            for _ in range(rng.choice([1, 1, 2, 3])):
+            if k < len(singles):
+                kind, text = singles[k]
+                lines = None
+            else:
+                kind, text = rng.choice(docs)
+                lines = text.split("\n")
+            for _ in range(rng.choice([1, 1, 2, 3]) if lines is not None else 0):
                 if not lines:
                     break
                 m = rng.random()
@@ -298,7 +313,7 @@ def run(res, ctx):
                 else:
                     j = rng.randrange(len(lines))
                     lines[i:i] = lines[min(i, j):max(i, j)]
-            content = "\n".join(lines).encode()
+            content = ("\n".join(lines) if lines is not None else text).encode()
             args = rng.choice([[], [], ["--extract-only"], ["--pretty"]])
             status, info, argv = run_cli(bindir, "etrade-plan-pdf-tx-extract", args, [("doc.txt", content)], k)
             st["evaluations"] += 1
